@@ -481,6 +481,62 @@ func run(r *hx.Run) error {
 			return err
 		}
 	}
+	// Image cells over wide glyphs (the situation of frame_displays_images' "stale" state, F113): on a 1x5
+	// screen frame 1 shows a wide glyph at column c (and narrow cells elsewhere), frame 2 puts image cells on
+	// every subset of the columns — over the glyph's head, its continuation, both, neither — and changes one
+	// other cell, frame 3 drops the images (Clear + one cell, or a refresh of the same screen).
+	{
+		n := 0
+		lim := 96
+		if r.Thorough {
+			lim = 1 << 30
+		}
+		for c := 0; c < 4; c++ {
+			for mask := 1; mask < 32; mask++ {
+				for variant := 0; variant < 3; variant++ {
+					if n >= lim && rng.Intn(6) != 0 {
+						continue
+					}
+					s, err := newSession(r, rng, fmt.Sprintf("img-%d-%d-%d", c, mask, variant), 5, 1, n%2 == 0, false, n%3 == 0, false, true)
+					if err != nil {
+						return err
+					}
+					win := s.vx.Window()
+					for col := 0; col < 5; col++ {
+						if col != c && col != c+1 {
+							win.SetCell(col, 0, ch("a"))
+						}
+					}
+					win.SetCell(c, 0, ch("世"))
+					s.render(false)
+					for col := 0; col < 5; col++ {
+						if mask&(1<<uint(col)) != 0 {
+							win.SetCell(col, 0, vaxis.VerifSixelCell())
+						}
+					}
+					if variant == 1 {
+						win.SetCell((c+2)%5, 0, ch("b"))
+					}
+					s.render(false)
+					switch variant {
+					case 0:
+						win.Clear()
+						win.SetCell(0, 0, ch("x"))
+						s.render(false)
+					case 1:
+						s.render(true)
+					case 2:
+						win.SetCell(c, 0, ch("🔥"))
+						s.render(false)
+					}
+					s.close()
+					n++
+					r.Count("image-over-wide")
+				}
+			}
+		}
+	}
+
 	// Bounded-exhaustive two-frame histories on a 1-row screen: frame 1 places two glyphs,
 	// frame 2 (after a Clear or not) places two more. 5 graphemes × 3 styles.
 	gs := []string{"a", "世", "", " ", "\U0001F525"}
